@@ -149,7 +149,9 @@ class H:
                 b = lo + 3.0
             if hi is not None and lo is None:
                 a = hi - 3.0
-            return SR(v, None, None, core.seeded_samples(name, core.SAMPLE_RNG.uniform(a, b, core.K_SAMPLES)))
+            fv = core.seeded_samples(name, core.SAMPLE_RNG.uniform(a, b, core.K_SAMPLES))
+            fv = core.exact_samples(name, fv, lo, hi)
+            return SR(v, None, None, fv)
         v = self._value(name, sampler)
         if (lo is not None and v < lo - 1e-9 * (1 + abs(lo))) or (hi is not None and v > hi + 1e-9 * (1 + abs(hi))):
             self.assume_failed.append((f'{name} in [{lo}, {hi}]', v))
@@ -176,6 +178,7 @@ class H:
             if getattr(CTX, 'seed_env', None):
                 g = _np.array([core.seeded_samples(f"{name}{i}", g[i]) for i in range(n)])
                 g = g / _np.sqrt((g * g).sum(axis=0))
+            g = core.sphere_samples([f"{name}{i}" for i in range(n)], g)
             for i in range(n):
                 v[i].fv = g[i]
             s = 0.0
@@ -437,7 +440,8 @@ class H:
                 if z3.is_false(bad):
                     self.checks.append(dict(name=nm, bad=None, snap=snap, trivial=True))
                 else:
-                    self.checks.append(dict(name=nm, bad=bad, snap=snap, trivial=False))
+                    self.checks.append(dict(name=nm, bad=bad, snap=snap, trivial=False, mask=CTX.mask.copy(),
+                                            exact=dict(CTX.exact)))
         else:
             self.checks.append(dict(name=name, ok=p.len, info=p.info))
 
